@@ -47,9 +47,20 @@ class InStreamModel:
         self.last_ack_cycle = -10000
         self.accepted = 0
         self.own_token_since = True    # a good token for our address was seen since the last data packet of this endpoint
+        # "flex" judgement (sessions that drive flush / discard, where packet boundaries depend on timing): a data
+        # packet must carry the next contiguous kept bytes of the stream (<= mps), a retry the same payload again.
+        self.flex = False
+        self.kept = bytearray()        # accepted and not discarded bytes
+        self.kept_last = []
+        self.pos = 0                   # number of kept bytes the host has ACKed
+        self.last_sent = None          # payload of the packet that awaits its ACK
+        self.zlp_due = False
+        self.discards = 0
         self.foreign_ack_seen = False  # the host ACKed another device while this endpoint's packet was un-ACKed
 
     def accept(self, byte, last, cycle):
+        self.kept.append(byte)
+        self.kept_last.append(last)
         self._cur.append(byte)
         self.accepted += 1
         if last or len(self._cur) == self.mps:
@@ -60,7 +71,26 @@ class InStreamModel:
                 self.packets.append((b"", cycle))
 
     def pending(self):
+        if self.flex:
+            return self.unacked or len(self.kept) > self.pos or self.zlp_due
         return self.k < len(self.packets)
+
+    def flex_acked(self, cycle):
+        sent = self.last_sent or b""
+        self.pos += len(sent)
+        self.zlp_due = len(sent) == self.mps and self.pos > 0 and bool(self.kept_last[self.pos - 1])
+        self.last_sent = None
+        self.toggle ^= 1
+        self.unacked = False
+        self.last_ack_cycle = cycle
+
+    def on_discard(self):
+        """`discard` sampled high: everything accepted and not yet ACKed is gone; the toggle does not move."""
+        del self.kept[self.pos:]
+        del self.kept_last[self.pos:]
+        self.unacked = False
+        self.last_sent = None
+        self.zlp_due = False
 
     def available(self, cycle, slack):
         return self.k < len(self.packets) and self.packets[self.k][1] + slack <= cycle and \
@@ -173,6 +203,7 @@ class Session:
             "gap_profile": rng.choice(["none", "none", "random", "fixed4", "onestall"]) if not self.fs60 else rng.choice(["random", "fixed4"]),
             "ready_profile": rng.choice(["always", "always", ("random", 0.6), ("every", 2), ("bursty", 6, 8)]),
             "consumer": {n: rng.choice(["always", "always", "always", "random", "stall"]) for n in self.out_numbers},
+            "out_buffer": {n: rng.choice([None, None, "mps", "mps+1", "2mps", "3mps"]) for n in self.out_numbers},
             "feed": {n: rng.choice(["dense", "dense", "gappy", "sparse"]) for n in self.in_numbers},
             "order_seed": rng.randrange(1 << 16),
         }
@@ -219,8 +250,11 @@ class Session:
             ep = USBStreamInEndpoint(endpoint_number=n, max_packet_size=mps)
             blocks.append(((n, "in"), ep, InStreamModel(n, mps)))
         for n, mps in cfg["out"].items():
-            ep = USBStreamOutEndpoint(endpoint_number=n, max_packet_size=mps)
-            blocks.append(((n, "out"), ep, OutStreamModel(n, mps)))
+            size = {None: None, "mps": mps, "mps+1": mps + 1, "2mps": 2 * mps, "3mps": 3 * mps}[cfg.get("out_buffer", {}).get(n)]
+            ep = USBStreamOutEndpoint(endpoint_number=n, max_packet_size=mps, buffer_size=size)
+            model = OutStreamModel(n, mps)
+            model.buffer = size if size is not None else 2 * mps - 1
+            blocks.append(((n, "out"), ep, model))
         n, width, endian = cfg["sig"]
         ep = USBSignalInEndpoint(width=width, endpoint_number=n, endianness=endian)
         blocks.append(((n, "in"), ep, SignalInModel(n, width, endian)))
@@ -245,7 +279,7 @@ class Session:
             spy.append((key, self.models[key], sigs))
             m = self.models[key]
             if m.kind == "in":
-                b.watch(ep.stream.valid, ep.stream.ready, ep.stream.payload, ep.stream.last)
+                b.watch(ep.stream.valid, ep.stream.ready, ep.stream.payload, ep.stream.last, ep.discard)
                 b.add_driver(self._feeder(key, ep, m), main=False)
             elif m.kind == "out":
                 b.watch(ep.stream.valid, ep.stream.ready, ep.stream.payload, ep.stream.first, ep.stream.last)
@@ -334,7 +368,10 @@ class Session:
             if m.kind == "in":
                 ep = self.eps[key]
                 s = ep.stream
-                if b.get(s.valid) and b.get(s.ready):
+                if b.get(ep.discard):
+                    m.on_discard()                      # (a byte accepted in such a cycle is dropped as well)
+                    m.discards += 1
+                elif b.get(s.valid) and b.get(s.ready):
                     m.accept(b.get(s.payload), b.get(s.last), b.cycle)
                     res.event("in_stream_bytes_accepted")
             elif m.kind == "out":
@@ -420,6 +457,8 @@ class Session:
                 self.host_acks += 1
                 self.foreign_ack_hazard()
             return info
+        if m.flex:
+            return (yield from self._judge_in_flex(n, m, ackmode, pkt, info, what))
         res.event("in_transactions")
         if pkt is None:
             res.violation("in_no_response", "IN ep=%d: no response; ops=%s" % (n, self.ops_log[-6:]))
@@ -486,6 +525,84 @@ class Session:
             res.bin("in_ack_withheld_" + ("silent" if ackmode == "none" else "damaged"))
         return info
 
+    def _judge_in_flex(self, n, m, ackmode, pkt, info, what):
+        """Judgement for sessions in which the application drives flush / discard: toggle, retry identity and
+        stream continuity only (how the stream is cut into packets is C11's subject)."""
+        res, b = self.res, self.b
+        res.event("in_transactions")
+        if pkt is None:
+            res.violation("in_no_response", "IN ep=%d: no response; ops=%s" % (n, self.ops_log[-6:]))
+            return info
+        if info["kind"] == "handshake":
+            if info["pid"] != U.NAK:
+                res.violation("in_unexpected_handshake", "IN ep=%d answered %s; ops=%s" % (n, what, self.ops_log[-6:]))
+            else:
+                res.event("in_naks")
+                if m.unacked:
+                    res.violation("in_nak_instead_of_retry", "IN ep=%d: a packet was sent before and not ACKed (no discard since), retry "
+                                  "answered NAK; ops=%s" % (n, self.ops_log[-8:]))
+                    m.unacked, m.last_sent = False, None
+            return info
+        if info["kind"] != "data":
+            res.violation("in_malformed_packet", "IN ep=%d answered %s" % (n, what))
+            return info
+        res.event("in_data_packets")
+        payload = bytes(info["payload"])
+        obs_toggle = 1 if info["pid"] == U.DATA1 else 0 if info["pid"] == U.DATA0 else None
+        retry = m.unacked
+        if retry:
+            res.bin("in_retry_after_missing_ack")
+            if payload != m.last_sent:
+                res.violation("in_wrong_packet_sequence", "IN ep=%d retry carries %s, the un-ACKed packet was %s; ops=%s"
+                              % (n, payload.hex(), (m.last_sent or b"").hex(), self.ops_log[-8:]))
+        else:
+            exp = bytes(m.kept[m.pos:m.pos + len(payload)])
+            if len(payload) > m.mps or payload != exp or (len(payload) == 0 and not m.zlp_due):
+                res.violation("in_wrong_packet_sequence", "IN ep=%d sent %s, the next un-ACKed stream bytes are %s (zlp_due=%s); ops=%s"
+                              % (n, payload.hex(), bytes(m.kept[m.pos:m.pos + max(8, len(payload))]).hex(), m.zlp_due, self.ops_log[-8:]))
+                at = bytes(m.kept).find(payload, max(0, m.pos - 2 * m.mps)) if payload else -1
+                if at >= 0:
+                    m.pos = at
+        m.last_sent = payload
+        if obs_toggle != m.toggle:
+            self.toggle_violation((n, "in"), m, obs_toggle, retry)
+            if obs_toggle is not None:
+                m.toggle = obs_toggle
+        if len(payload) == 0:
+            res.bin("in_zlp")
+        if len(payload) == m.mps:
+            res.bin("in_full_packet")
+        m.own_token_since = False
+        good = yield from self.send_ack(ackmode)
+        if good:
+            m.flex_acked(b.cycle)
+            res.event("in_acked")
+        else:
+            m.unacked = True
+            res.bin("in_ack_withheld_" + ("silent" if ackmode == "none" else "damaged"))
+        return info
+
+    def op_flush(self, key, cycles):
+        """Application asserts `flush` on a stream IN endpoint for some cycles (flex judgement required)."""
+        ep = self.eps[key]
+        self.log("FLUSH", key, cycles)
+        self.b.set(ep.flush, 1)
+        for _ in range(cycles):
+            yield
+        self.b.set(ep.flush, 0)
+        yield
+
+    def op_discard(self, key, cycles):
+        """Application asserts `discard` (between transactions).  The model drops everything not yet ACKed; the toggle stays."""
+        ep = self.eps[key]
+        self.log("DISCARD", key, cycles)
+        self.b.set(ep.discard, 1)
+        for _ in range(cycles):
+            yield
+        self.b.set(ep.discard, 0)
+        for _ in range(3):
+            yield
+
     def toggle_violation(self, key, m, observed, retry):
         """Overridable classifier for toggle mismatches (C14 narrows known mechanisms here)."""
         self.res.violation("in_wrong_toggle", "IN ep=%d packet %d sent with toggle %s, model expects DATA%d (retry=%s); ops=%s"
@@ -548,7 +665,7 @@ class Session:
         self.b.set(self.eps[(self.sig_number, "in")].signal, m.value)
 
     # -------------------------------------------------------------------------------------- OUT transactions
-    def op_out(self, n, *, choice="expected", length=None, fault=None, addr=None, ping_first=False, payload=None):
+    def op_out(self, n, *, choice="expected", length=None, fault=None, addr=None, ping_first=False, payload=None, allow_overflow=False):
         """OUT transaction.  choice: 'expected' (new data with the toggle the endpoint expects), 'other' (new data,
         wrong toggle), 'repeat' (previous packet again with its toggle).  fault: None | 'crc' | 'truncate' | 'no_data'."""
         res, b, h, rng = self.res, self.b, self.host, self.rng
@@ -570,9 +687,12 @@ class Session:
                     length = rng.choice([0, 1, m.mps - 1, m.mps, m.mps, rng.randint(0, m.mps)])
                 if self.consumer_hold.get(key):
                     # never overflow the endpoint's buffer (2*mps-1 bytes): what the endpoint does then is C13's subject
-                    room = (2 * m.mps - 1) - (len(m.stream) - len(m.observed))
-                    length = max(0, min(length, room))
-                    payload = None
+                    room = m.buffer - (len(m.stream) - len(m.observed))
+                    if not allow_overflow:
+                        length = max(0, min(length, room))
+                        payload = None
+                    elif length > room:
+                        res.bin("out_packet_exceeds_free_buffer")
                 data = bytes(tag(16 + n, m.sent + i) for i in range(length)) if payload is None else payload[:m.mps]
         before = len(m.observed) if m is not None else 0
         yield from h.token(U.OUT, addr, n)
@@ -634,6 +754,37 @@ class Session:
             yield from self.drain(key)
             self.check_delivered(key, m, before, data, toggle)
         return info
+
+    def nak_pattern(self, key, between=None):
+        """Hold the consumer of OUT endpoint `key`, send full packets until its buffer cannot take one (NAK), optionally run
+        `between()` (traffic elsewhere: the next token ends the endpoint's overflow state) and retry while still held,
+        then release, drain and retry: the NAKed packet's toggle must still be the expected one."""
+        res, rng, m = self.res, self.rng, self.models[key]
+        self.consumer_hold[key] = True
+        self.log("HOLD", key)
+        nak = False
+        for _ in range(m.buffer // m.mps + 3):
+            info = yield from self.op_out(key[0], choice="expected", fault=None, length=m.mps, allow_overflow=True)
+            yield from self.gap()
+            if info.get("kind") == "handshake" and info.get("pid") == U.NAK:
+                nak = True
+                break
+        if nak:
+            res.bin("out_nak_buffer_full")
+            if between is not None:
+                yield from between()
+                yield from self.gap()
+            if rng.random() < 0.5:
+                yield from self.op_out(key[0], choice=rng.choice(["expected", "expected", "repeat"]), fault=None, length=m.mps, allow_overflow=True)
+                yield from self.gap()
+        self.consumer_hold[key] = False
+        self.log("RELEASE", key)
+        yield from self.drain(key)
+        self.check_delivered(key, m)
+        info = yield from self.op_out(key[0], choice="expected", fault=None, length=rng.randint(1, m.mps))
+        if nak and info.get("kind") == "handshake" and info.get("pid") == U.ACK:
+            res.bin("out_retry_after_nak_accepted")
+        return nak
 
     def drain(self, key):
         """Wait until the endpoint's output stream has been idle for 3 cycles (bounded)."""
